@@ -1,0 +1,28 @@
+//go:build verif
+
+package virtual
+
+// VerifLocksDump is a read-only verification hook: it returns copies of
+// the entries of the set in list order (following the next pointers),
+// and reports whether walking the list backwards (following the
+// previous pointers) visits exactly the same entries in reverse, i.e.
+// whether the doubly linked list is intact.
+func (ls *ByteRangeLockSet[Owner]) VerifLocksDump() (forward []ByteRangeLock[Owner], linksIntact bool) {
+	const limit = 1 << 16
+	var fwd []*byteRangeLockEntry[Owner]
+	for le := ls.list.next; le != &ls.list; le = le.next {
+		if le == nil || len(fwd) > limit {
+			return forward, false
+		}
+		fwd = append(fwd, le)
+		forward = append(forward, le.lock)
+	}
+	i := len(fwd)
+	for le := ls.list.previous; le != &ls.list; le = le.previous {
+		i--
+		if le == nil || i < 0 || fwd[i] != le {
+			return forward, false
+		}
+	}
+	return forward, i == 0
+}
